@@ -116,6 +116,7 @@ def run_loop(ch, kind, depth, period_ms=1000.0):
     import datetime
     from tornado.ioloop import PeriodicCallback
     td = kind.endswith("-td")
+    ownclock = kind.endswith("-ownclock")
     kind = kind.split("-")[0]
     if td:
         period_ms = 2.5
@@ -123,6 +124,8 @@ def run_loop(ch, kind, depth, period_ms=1000.0):
     with World() as w:
         origins = []       # times of start(): the grid of the runs that follow is origin + k * period
         overrun = [0]
+        far = []
+        busy = [0]
         run_origin = []    # for every run: the time of the start() call it belongs to
         runs = []          # (start_time, id)
         active = []        # pending futures of running invocations
@@ -149,6 +152,9 @@ def run_loop(ch, kind, depth, period_ms=1000.0):
             f = asyncio.Future()
             active.append(f)
             return Aw(f) if kind == "aw" else f
+        if ownclock:
+            # a loop whose time() is its own clock (documented as overridable): the grid lives on that clock
+            w.ioloop.time = lambda: 1000.0 + w.loop.vtime
         pc = PeriodicCallback(sync_cb if kind == "sync" else coro_cb,
                               datetime.timedelta(microseconds=2500) if td else period_ms)
         origins.append(w.loop.vtime)
@@ -162,6 +168,8 @@ def run_loop(ch, kind, depth, period_ms=1000.0):
             if any(not f.done() for f in active):
                 en.append("complete")
             en.append("stop" if pc.is_running() else "start")
+            if pc.is_running() and w.loop.next_timer() is not None and busy[0] < 1:
+                en.append("busy-stop")
             if pc.is_running() and kind != "sync" and any(not f.done() for f in active):
                 en.append("stop+start")
             if kind != "sync" and any(not f.done() for f in active) and overrun[0] < 2:
@@ -180,6 +188,17 @@ def run_loop(ch, kind, depth, period_ms=1000.0):
                 st["stopped_at"] = None
                 origins.append(w.loop.vtime)
                 pc.start()
+            elif ev == "busy-stop":
+                # the loop was busy past the periodic deadline; a callback due just after it calls stop(): both run in
+                # the same loop iteration, the periodic timer first
+                busy[0] += 1
+                t = w.loop.next_timer()
+
+                def stopper():
+                    pc.stop()
+                    st["stopped_at"] = w.loop.vtime
+                w.loop.call_at(t + 1e-6, stopper)
+                w.loop.advance_to(t + 1e-3)
             elif ev == "advance":
                 overrun[0] += 1
                 w.advance(1.5 * p)
@@ -188,8 +207,11 @@ def run_loop(ch, kind, depth, period_ms=1000.0):
                 origins.append(w.loop.vtime)
                 pc.start()
             w.pump()
+            nt = w.loop.next_timer()
+            if pc.is_running() and nt is not None and nt - w.loop.vtime > p * (1 + 1e-9) + 2e-6:     # (float resolution of epoch-sized times)
+                far.append((ev, nt - w.loop.vtime))
         ntimers = len(w.loop.timers())
-        return {"period": p, "origins": origins, "run_origin": run_origin, "trace": trace, "runs": runs, "overlaps": overlaps, "after_stop": after_stop, "timers": ntimers,
+        return {"period": p, "far": far, "origins": origins, "run_origin": run_origin, "trace": trace, "runs": runs, "overlaps": overlaps, "after_stop": after_stop, "timers": ntimers,
                 "running": pc.is_running(), "pending": sum(1 for f in active if not f.done()),
                 "errs": [str(c.get("message"))[:80] for c in w.loop_errors()],
                 "logs": [(r[1], r[2][:60]) for r in w.logs.records if r[1] in ("ERROR", "CRITICAL")]}
@@ -197,6 +219,9 @@ def run_loop(ch, kind, depth, period_ms=1000.0):
 
 def judge_loop(o):
     bad = []
+    if o.get("far"):
+        bad.append(("next-run-more-than-one-period-ahead", "after %r the next run is %.6g s ahead, the period is %.6g s"
+                    % (o["far"][0][0], o["far"][0][1], o["period"])))
     if o["overlaps"]:
         restart = "stop+start" in o["trace"] or ("stop" in o["trace"] and "start" in o["trace"])
         bad.append(("overlap" + (":after-restart-during-run" if restart else ""),
@@ -251,6 +276,7 @@ class C39(Check):
         parts += [("loop", kind, D) for kind in ("sync", "coro")]
         parts += [("loop", kind, D - 2) for kind in ("sync-td", "coro-td")]
         parts += [("loop", "aw", D - 1)]       # the callback returns an object with __await__
+        parts += [("loop", "sync-ownclock", D - 2), ("loop", "coro-ownclock", D - 2), ("period", 0)]
         parts += [("updj", i, ji) for i in range(3) for ji in range(len(JITTERS))]
         return parts
 
@@ -274,6 +300,23 @@ class C39(Check):
             st.setmax("max_clock_readings", K)
             if len(st.samples) < 1:
                 st.sample({"callback_time_ms": ct, "start": start, "example_readings": ["p/2", "5p/2", "-p/2"], "exact": exact})
+            return
+        if part[0] == "period":
+            import datetime
+            from tornado.ioloop import PeriodicCallback
+            for td in (datetime.timedelta(days=1), datetime.timedelta(days=1, hours=6), datetime.timedelta(hours=36),
+                       datetime.timedelta(weeks=1), datetime.timedelta(microseconds=2500), datetime.timedelta(minutes=1, seconds=23),
+                       datetime.timedelta(days=2, microseconds=1)):
+                st.ev()
+                st.nontriv(("period", str(td)))
+                try:
+                    got = PeriodicCallback(lambda: None, td).callback_time
+                except Exception as e:
+                    got = "raised %s" % type(e).__name__
+                want = td.total_seconds() * 1000
+                if got != want and not (isinstance(got, (int, float)) and abs(got - want) < 1e-6):
+                    st.violation("period:timedelta", "PeriodicCallback(f, %r).callback_time = %r ms, the period is %r ms" % (td, got, want),
+                                 {"kind": "period"})
             return
         if part[0] == "updj":
             _, i, ji = part
@@ -312,6 +355,8 @@ class C39(Check):
     def replay(self, case):
         if case["kind"] == "upd":
             return repr(run_update(case["ct"], case["start"], case["steps"], case["exact"]))
+        if case["kind"] == "period":
+            return "re-run the check (python run.py check C39 --tier quick): the period family is a fixed list"
         if case["kind"] == "updj":
             return repr(run_update_jitter(case["ct"], case["start"], case["jitter"], [tuple(x) for x in case["steps"]]))
         o = run_loop(devex.Chooser(case["choices"]), case["cb"], case["depth"])
